@@ -273,6 +273,11 @@ class Engine:
             return f_not(self.atom(('cmp', 'in', e[2], e[3])))
         if e[0] == 'cmp' and e[1] == 'is not':
             return f_not(self.atom(('cmp', 'is', e[2], e[3])))
+        if e[0] == 'cmp' and e[1] == '==' and any(x[0] == 'enum' and isinstance(x[3], int) and not isinstance(x[3], bool) for x in (e[2], e[3])):
+            # an enum member with an integer value is that integer (amaranth enums carry a shape): one atom for both spellings
+            e2 = self.norm(('cmp', '==', *[('const', x[3]) if x[0] == 'enum' and isinstance(x[3], int) else x for x in (e[2], e[3])]))
+            if e2[0] == 'cmp' and e2 != e:
+                return self._b(e2) if e2[1] in ('==', '!=') else self.atom(e2)
         key = ir.show(e)
         self.atom_ir[key] = e
         return ('atom', key)
@@ -530,6 +535,10 @@ class Engine:
             subj = self.norm(t.switches[fr[1]]) if t is not None and fr[1] in t.switches else None
             shared = subj is not None and pats and all(
                 p[0] in ('idx', 'enum') or (p[0] == 'const' and isinstance(p[1], int) and not isinstance(p[1], bool)) for p in pats)
+            if shared and all(p[0] == 'const' for p in pats):
+                # Case(K1, K2) on a value subject is `subject == K1 or subject == K2`: the same atoms a comparison
+                # written in an expression produces
+                return f_or(*[self._b(self.norm(('cmp', '==', subj, p))) for p in pats])
             if shared:
                 key = f"case[{ir.show(subj)}](" + ", ".join(ir.show(p) for p in pats) + ")"
                 self.atom_ir[key] = ('caseatom', ('subj', ir.show(subj)), pats)
@@ -682,9 +691,14 @@ class Engine:
                 if t is not None and e[1] in t.switches:
                     sk = ('subj', ir.show(self.norm(t.switches[e[1]])))
                     own = {tuple(self.norm(p) for p in pats) for pats in t.switch_cases.get(e[1], ())}
+                    subj_n = self.norm(t.switches[e[1]])
+                    own_consts = {p[0] for p in own if len(p) == 1 and p[0][0] in ('const', 'enum')}
+                    own_consts |= {('const', p[3]) for p in list(own_consts) if p[0] == 'enum' and isinstance(p[3], int)}
                     for b in atoms:
                         eb = self.atom_ir.get(b)
                         if eb is not None and eb[0] == 'caseatom' and eb[1] == sk and tuple(eb[2]) in own:
+                            groups.setdefault(('dflt', e[1]), [a]).append(b)
+                        elif eb is not None and eb[0] == 'cmp' and eb[1] == '==' and eb[2] == subj_n and eb[3] in own_consts:
                             groups.setdefault(('dflt', e[1]), [a]).append(b)
             elif e[0] == 'cmp' and e[1] == '==':
                 lhs, rhs = e[2], e[3]
